@@ -1167,8 +1167,6 @@ def gen_pair(rng, P, gr, bad_pool):
         has_comma = ',' in re.sub(r'\([^()]*\)', '', re.sub(r'\([^()]*\)', '', v))     # a comma outside functions
         ctx = 'border-style:solid;position:relative;'
         cont = ''
-        if form in ('two-step', 'defined-with-fallback') and has_comma:
-            form = 'whole'
         if 'url(' in v.lower() and form in ('dash-underscore', 'fallback', 'two-step', 'defined-with-fallback'):
             form = 'whole'          # one mechanism per case: url() values go through the plain forms
         if form == 'whole':
@@ -1186,8 +1184,7 @@ def gen_pair(rng, P, gr, bad_pool):
             # F131: --a-b and --a_b are stored under one name - control: var(--a-b) reads the other one
             other = rng.choice([x for x in pool if 'url(' not in x.lower()] or [v])
             da = '--a-b:%s;--a_b:%s;%s:var(--a-b)' % (v, other, prop)
-            if other != v:
-                control = ('var:dash-underscore', da, '%s:%s' % (prop, other))
+            # F131 fixed: distinct names are distinct properties, no control any more
         elif form == 'defined-with-fallback':
             # the fallback is only for an undefined property
             other = rng.choice(pool)
@@ -1200,11 +1197,8 @@ def gen_pair(rng, P, gr, bad_pool):
         where = rng.choice(['rule', 'rule', 'attr'])
         a, b = place(rng, da, db, cont, ctx, where=where)
         case = dict(kind='var', sig='meta:var:%s' % form, a=a, b=b, note='%s == %s' % (da, db))
-        if form == 'fallback' and has_comma:
-            # F130: the commas of a fallback are dropped - control: against the value without its commas
-            nocomma = re.sub(r'\s*,\s*(?![^()]*\))', ' ', v)
-            control = ('var:fallback-commas', da, '%s:%s' % (prop, nocomma))
-        elif 'url(' in v.lower() and prop in gr.reg['properties'] and control is None:
+        # F130 fixed: a fallback keeps its commas, judged like any other pair
+        if 'url(' in v.lower() and prop in gr.reg['properties'] and control is None:
             # F129: a relative url() in a longhand's var() loses the base URL - control: the same with absolute urls
             absu = lambda t: re.sub(r'url\(\s*(["\']?)(?![a-zA-Z][-+.a-zA-Z0-9]*:)', r'url(\1file:///nonexistent/', t)
             control = ('var:url-longhand-base', absu(da), absu(db))
@@ -1848,10 +1842,9 @@ RENDER_PROBES = [
      'a relative url() through var() in a longhand', '',
      '--x:url(file:///nonexistent/pattern.png);background-image:var(--x)',
      'background-image:url(file:///nonexistent/pattern.png)', 'var:url-longhand-base'),
-    ('font-family:var(--u, weasyprint, serif)', 'font-family:weasyprint, serif', None, 'a fallback with commas', '',
-     'font-family:var(--u, weasyprint, serif)', 'font-family:weasyprint serif', 'var:fallback-commas'),
-    ('--a-b:1px;--a_b:2px;width:var(--a-b)', 'width:1px', None, '--a-b is not --a_b', '',
-     '--a-b:1px;--a_b:2px;width:var(--a-b)', 'width:2px', 'var:dash-underscore'),
+    ('font-family:var(--u, weasyprint, serif)', 'font-family:weasyprint, serif', None, 'a fallback with commas'),
+    ('--a-b:1px;--a_b:2px;width:var(--a-b)', 'width:1px', None, '--a-b is not --a_b'),
+    ('--a-b:1px;--a_b:2px;width:var(--a_b)', 'width:2px', None, '--a_b is not --a-b'),
     ('flex:1 0.0', 'flex-grow:1;flex-shrink:0;flex-basis:0px', None, 'a unitless zero is a flex factor', 'display:flex;',
      'flex:1 0', 'flex-grow:1;flex-shrink:0;flex-basis:0px', 'flex:unitless-zero-spelling'),
     ('--x:1px var(--x);width:var(--x, 7px)', 'width:7px', None, 'a property of a cycle is invalid: the fallback', '',
